@@ -165,9 +165,10 @@ def check_c04(tier, seed):
             ty_cases += 1
             rc2, out2 = C.run([cli] + files, cwd=TM.root, extra_env=TM.env(), timeout=300)
             if rc2 != 0:
-                refused.append((lbl, out2.strip().splitlines()[-1][:200] if out2.strip() else ""))
+                R.violation("the generator refuses the hand-written case '%s' (which is a valid input): %s" % (lbl, out2.strip().splitlines()[-1][:300] if out2.strip() else ""),
+                            {"kind": "input", "failing_input": {f: open(os.path.join(TM.root, f)).read() for f in files}, "invocation": "kessoku " + " ".join(files), "output": out2[-1500:]})
                 continue
-            rc3, out3 = C.run(["go", "build", "-gcflags=-e", "-o", os.devnull] + pkgs, cwd=TM.root, extra_env=TM.env(), timeout=600)
+            rc3, out3 = C.run(["go", "vet"] + pkgs, cwd=TM.root, extra_env=TM.env(), timeout=600)
             if rc3 != 0:
                 msgs = [l.strip() for l in out3.splitlines() if re.match(r"^\S+\.go:\d+", l.strip())]
                 srcs = {f: open(os.path.join(TM.root, f)).read() for f in files}
@@ -443,3 +444,35 @@ def emission_obligation(R, tier, seed):
              not diffs and not bad_gen, "%d differ, %d invocations failed; first: %s" % (len(diffs), len(bad_gen), [d[1:] for d in diffs[:1]] or [b[1][-200:] for b in bad_gen[:1]]))
     R.coverage["end_to_end_declarations"] = len(S["ok"])
     return S, diffs
+
+def names_e2e(R, repo_dir, tier, seed):
+    """C12 end to end: pre-registration of package-level names happens in the parser, so it is only visible through
+    the real CLI: adversarial-name packages, a file generated by another tool, two packages with one name"""
+    from . import typestream as TS
+    from . import render as RD
+    TM = RD.Module("c12nm%d" % seed)
+    n = 0
+    try:
+        cli = os.path.join(repo_dir, "kessoku")
+        for lbl, pkgs, files in TS.render_special(TM.root):
+            n += 1
+            rc2, out2 = C.run([cli] + files, cwd=TM.root, extra_env=TM.env(), timeout=300)
+            if rc2 != 0:
+                continue
+            rc3, out3 = C.run(["go", "vet"] + pkgs, cwd=TM.root, extra_env=TM.env(), timeout=600)
+            if rc3 != 0:
+                msgs = [l.strip() for l in out3.splitlines() if re.match(r"^(vet: )?\S+\.go:\d+", l.strip())]
+                R.violation("a generated identifier collides with a name declared in the user's package (case '%s'): %s" % (lbl, (msgs or [out3[-200:]])[0]),
+                            {"kind": "input", "failing_input": {f: open(os.path.join(TM.root, f)).read() for f in files}, "invocation": "kessoku " + " ".join(files), "errors": msgs[:5]})
+        items = TS.render_names(TM.root, G.SplitMix64(seed * 17 + 3), nfiles=8 if tier == "quick" else 80)
+        for lbl, fn, picked in items:
+            n += 1
+            C.run([cli, os.path.relpath(fn, TM.root)], cwd=TM.root, extra_env=TM.env(), timeout=300)
+        rc3, out3 = C.run(["go", "vet", "./nm/"], cwd=TM.root, extra_env=TM.env(), timeout=900)
+        if rc3 != 0:
+            msgs = [l.strip() for l in out3.splitlines() if re.match(r"^(vet: )?nm/\S+\.go:\d+", l.strip())]
+            R.violation("adversarial-name package: generated code does not compile: %s" % (msgs or [out3[-300:]])[0],
+                        {"kind": "input", "failing_input": "vlib/typestream.render_names(seed=%d)" % (seed * 17 + 3), "errors": msgs[:8]})
+    finally:
+        TM.close()
+    R.coverage["end_to_end_name_cases"] = n
